@@ -3,5 +3,5 @@ CONSTANTS
   BytePool <- MCBytePool
   WithNullUnion = FALSE
 SPECIFICATION Spec
-INVARIANTS ReferenceRoundTrip CanonIdempotent DelimitersAreStructural Export
+INVARIANTS ReferenceRoundTrip CanonIdempotent NormCanonStable DelimitersAreStructural Export
 CHECK_DEADLOCK FALSE
